@@ -779,8 +779,13 @@ func c14Routing(w *core.W, j int) {
 				rw := &muxRW{}
 				w.Eval(1)
 				wit := map[string]any{"patterns": presAll(pats), "qname": q.Pres(), "qtype": qtype}
+				sent := req.Copy() // the request as it was decoded: what the handler is to be given, what REFUSED echoes
 				if w.Guard("ServeMux.ServeDNS", wit, func() { serveDNS(rw, req) }) {
 					continue
+				}
+				if d := bridge.Diff(sent, req); d != "" {
+					w.Violation("C14/routing/request-altered-by-mux", "the request handed on by the multiplexer is not the decoded request any more: it differs at "+d, wit)
+					req = sent.Copy()
 				}
 				w.NontrivialStr(q.Pres(), fmt.Sprint(qtype), strings.Join(presAll(pats), "|"))
 				allowed, refused := c14Route(pats, q, qtype)
@@ -811,7 +816,7 @@ func c14Routing(w *core.W, j int) {
 						bad = "opcode not echoed"
 					case req.Opcode == dns.OpcodeQuery && (m.RecursionDesired != req.RecursionDesired || m.CheckingDisabled != req.CheckingDisabled):
 						bad = "RD/CD of a query not echoed"
-					case len(m.Question) != 1 || m.Question[0] != req.Question[0]:
+					case len(m.Question) != 1 || m.Question[0] != sent.Question[0]:
 						bad = "first question not echoed"
 					case len(m.Answer)+len(m.Ns)+len(m.Extra) != 0:
 						bad = "records in the reply"
